@@ -237,6 +237,48 @@ pub fn read_case(prop: &str, c: &CodeCase, wr: &Written, rcfg: RCfg, rop: CodeOp
     let _ = prop;
 }
 
+/// The same read when the codeword is the last thing in a strict stream: the image is cut at the first
+/// reader-word boundary after the codeword, so every look-ahead beyond it fails. The value and the
+/// position after it must be the same as in the middle of a stream.
+pub fn read_case_tail(c: &CodeCase, wr: &Written, rcfg: RCfg, rop: CodeOp, rep: &mut Report, approach: u8) {
+    let e = c.e;
+    let rw = rcfg.kind.word_bits();
+    let end = c.offset + wr.code_len;
+    let nbytes = end.div_ceil(rw) * rw / 8;
+    let mut img = wr.image16.clone();
+    img.resize(nbytes.max(rw / 8), 0);
+    let mut h = make_reader(rcfg, &img);
+    let code = rop.code();
+    let sig = format!("{}|{}|{}|{}|at-tail", e.name(), rcfg.kind.name(), code.family(), rop.name().split('(').next().unwrap_or(""));
+    let kvf = || format!("{} rcfg={} rop={} approach={} tail=1", c.to_kv(), rcfg.name(), codeop_to_string(&rop), approach);
+    match approach % 3 {
+        0 => {
+            let _ = guard(|| h.r.skip_bits(c.offset));
+        }
+        1 => {
+            let mut left = c.offset;
+            while left > 0 {
+                let n = left.min(61);
+                let _ = guard(|| h.r.read_bits(n));
+                left -= n;
+            }
+        }
+        _ => {
+            let _ = guard(|| h.r.set_bit_pos(c.offset as u64).unwrap());
+        }
+    }
+    rep.eval(1);
+    let got = guard(|| h.r.read_code(rop));
+    let pos = guard(|| h.r.bit_pos().unwrap());
+    if got != Out::Ok(c.value) || pos != Out::Ok(end as u64) {
+        rep.violation(
+            &format!("{}|{}", sig, if !got.is_ok() { got.class() } else if got != Out::Ok(c.value) { "wrong-value".to_string() } else { "end-position".to_string() }),
+            || format!("{} written at offset {} is the last code of a strict {}-bit stream: {} on {} returned {} ending at {} (expected {} ending at {})", c.value, c.offset, 8 * img.len(), rop.name(), rcfg.name(), got.show(), pos.show(), c.value, end),
+            kvf,
+        );
+    }
+}
+
 /// Every library length function for this code (name, value).
 pub fn lib_lens(code: Code, v: u64) -> Vec<(String, Out<usize>)> {
     let mut out: Vec<(String, Out<usize>)> = vec![];
